@@ -66,6 +66,13 @@ def run(ctx):
     written = []
     for i in range(n):
         areas = ihexgen.random_image(rng)
+        if i % 4 == 1:
+            # an image whose hash begins with zero nibbles (one in 16 does): tweak the last byte until so
+            a0, d0 = areas[-1]
+            for b in range(256):
+                areas[-1] = (a0, d0[:-1] + bytes([b]))
+                if hashlib.sha256(b"".join(d for _, d in sorted(areas))).hexdigest().startswith("0"):
+                    break
         res["distribution"]["images"] += 1
         want = hashlib.sha256(b"".join(d for _, d in sorted(areas))).digest()
         hashes = set()
@@ -95,6 +102,27 @@ def run(ctx):
                                                   "order (record sizes %r, order %r)" % (sizes, order),
                                           "areas": [(hex(a), len(d)) for a, d in areas], "file": text[:600]})
             hashes.add(got)
+            if w == 1 and got is not None:
+                # the image is rebuilt in place: same path, same size, same modification time, other bytes
+                st = os.stat(path)
+                areas2 = [(a, bytes((x + 1) & 0xFF for x in d)) for a, d in areas]
+                text2 = ihexgen.write_image(areas2, sizes, order, newline="\r\n" if "\r\n" in text else "\n")
+                if len(text2) == len(text):
+                    with open(path, "w", newline="") as f:
+                        f.write(text2)
+                    os.utime(path, ns=(st.st_atime_ns, st.st_mtime_ns))
+                    want2 = hashlib.sha256(b"".join(d for _, d in sorted(areas2))).digest()
+                    try:
+                        got2 = compute_app_hash(path)
+                    except Exception:
+                        got2 = None
+                    if got2 != want2:
+                        res["violations"].append({"key": "C19:stale-hash", "what": "an image rebuilt in place "
+                                                  "(same path, size and mtime) still hashes as %s"
+                                                  % ("the previous image" if got2 == want else repr(got2))})
+                    with open(path, "w", newline="") as f:
+                        f.write(text)
+                    os.utime(path, ns=(st.st_atime_ns, st.st_mtime_ns))
             if len(text) < 6000:
                 terms.append("(%s, %s)" % (c_str(text), c_opt(got, c_bytes)))
                 descs.append({"file": text[:500], "impl_hash": None if got is None else got.hex()})
@@ -117,6 +145,15 @@ def run(ctx):
                     got = json.load(open(out_auth))["signer"]
                 except Exception:
                     got = None
+                try:
+                    from admin.signer_authorization import SignerAuthorization
+                    msg_text = SignerAuthorization.from_jsonfile(out_auth).signer_version.msg
+                except Exception as e:
+                    msg_text = "unreadable: %r" % e
+                if msg_text != "RSK_powHSM_signer_%s_iteration_%d" % (want.hex(), it):
+                    res["violations"].append({"key": "C19:message-text", "what": "the authorization message for an "
+                                              "image hashing to %s (iteration %d) reads %r"
+                                              % (want.hex(), it, msg_text)})
                 if code != 0 or got is None or got.get("hash") != want.hex() or str(got.get("iteration")) != str(it):
                     res["violations"].append({"key": "C19:signapp-message", "what": "`signapp message -o` wrote "
                                               "%r for an image whose hash is %s, iteration %d (the output file "
